@@ -1,4 +1,5 @@
 import Nervus.Driver.Util
+import Nervus.Driver.Agg
 import Nervus.Driver.BTree
 import Nervus.Driver.Backup
 import Nervus.Driver.CapiSched
@@ -6,12 +7,16 @@ import Nervus.Driver.Codec
 import Nervus.Driver.Cypher
 import Nervus.Driver.CypherUpdate
 import Nervus.Driver.Handles
+import Nervus.Driver.Hnsw
+import Nervus.Driver.Index
 import Nervus.Driver.Locks
 import Nervus.Driver.OKey
 import Nervus.Driver.Pager
 import Nervus.Driver.PlanOps
 import Nervus.Driver.SnapSched
+import Nervus.Driver.Sort
 import Nervus.Driver.Vacuum
+import Nervus.Driver.Value
 import Nervus.Driver.WalFrame
 open Nervus.Driver
 
@@ -34,22 +39,11 @@ def streams : List (String × Stream) := ([] : List (String × Stream))
   |>.cons ("plan", PlanStream.stream)
   |>.cons ("planlim", PlanStream.stream)
   |>.cons ("planwhere", PlanStream.stream)
-import Nervus.Driver.Value
-import Nervus.Driver.Sort
-import Nervus.Driver.Agg
-import Nervus.Driver.Index
-import Nervus.Driver.Hnsw
-open Nervus.Driver
-
-/-- stream registry: one line per stream (kept one-per-line so that merges are unions) -/
-def streams : List (String × Stream) := [
-  ("okey", OKeyStream.stream),
-  ("value", ValueStream.stream),
-  ("sort", SortStream.stream),
-  ("agg", AggStream.stream)
-  ("index", IndexStream.stream),
-  ("hnsw", HnswStream.stream)
-]
+  |>.cons ("value", ValueStream.stream)
+  |>.cons ("sort", SortStream.stream)
+  |>.cons ("agg", AggStream.stream)
+  |>.cons ("index", IndexStream.stream)
+  |>.cons ("hnsw", HnswStream.stream)
 
 def main (args : List String) : IO UInt32 := do
   match args with
